@@ -6,6 +6,7 @@ import (
 	"go/token"
 	"go/types"
 	"math/big"
+	"regexp"
 	"strings"
 
 	"golang.org/x/tools/go/ssa"
@@ -550,5 +551,23 @@ func init() {
 		}
 		in.write(p, b.V)
 		return Iface{}
+	})
+}
+
+var revisionFormat = regexp.MustCompile(`^.*[^\n-]-{1}[1-9][0-9]*$`)
+
+func init() {
+	CT := "github.com/cosmos/ibc-go/v10/modules/core/02-client/types."
+	reg(CT+"ParseChainID", func(in *Interp, fn *ssa.Function, a []Value, pos token.Pos) Value {
+		s := strOf(in, a[0])
+		if !revisionFormat.MatchString(s) {
+			return Int64(0)
+		}
+		parts := strings.Split(s, "-")
+		v, ok := new(big.Int).SetString(parts[len(parts)-1], 10)
+		if !ok || !v.IsUint64() {
+			in.goPanic(pos, "regex allowed non-number value as last split element for chainID", nil)
+		}
+		return IntConst(v)
 	})
 }
